@@ -114,6 +114,15 @@ def overlay_kani(sc, spec):
         if not os.path.exists(pr):
             os.makedirs(os.path.dirname(pr), exist_ok=True)
             shutil.copy(os.path.join(sc.sr, tr["file"]), pr)
+    # visibility-only transforms (private item -> pub(crate)) do not change behaviour and are
+    # needed by the harness to compile: they are kept in the tree used for native replay
+    for tr in spec.get("transforms", []):
+        if tr.get("keep_for_replay"):
+            pr = os.path.join(sc.dir, "pristine", tr["file"])
+            txt = open(pr).read()
+            txt2, n = re.subn(tr["regex"], tr["repl"], txt, flags=re.M)
+            if n >= tr.get("min", 1):
+                open(pr, "w").write(txt2)
     for tr in spec.get("transforms", []):
         apply_transform(sc, tr)
     uses_models = any(tr["repl"].startswith("crate::verif_models") for tr in spec.get("transforms", []))
